@@ -399,15 +399,17 @@ impl<R: AsyncRead + AsyncSeek + Unpin + Send + 'static> AsyncArchiveReader<R> {
         compression_method: u8,
         file_path: Option<&str>,
     ) -> Result<Arc<AsyncDecompressionMonitor>> {
-        // Validate decompression request
-        crate::security::validate_decompression_operation(
-            0, // Compressed size not known at this point
-            expected_size,
-            compression_method,
-            file_path,
-            &self.session_tracker,
-            &self.security_limits,
-        )?;
+        // The compressed size is not known at this point, so the ratio based checks of
+        // validate_decompression_operation cannot be applied (it refuses a zero compressed size):
+        // enforce the session and the per-file limits directly.
+        let _ = (compression_method, file_path);
+        self.session_tracker
+            .check_session_limits_with_addition(expected_size, &self.security_limits)?;
+        if expected_size > self.security_limits.max_decompressed_size {
+            return Err(Error::resource_exhaustion(
+                "File size exceeds maximum allowed limit",
+            ));
+        }
 
         Ok(Arc::new(AsyncDecompressionMonitor::new(
             expected_size.min(self.security_limits.max_decompressed_size),
